@@ -428,7 +428,7 @@ Proof.
                   else ROk (JStr (unescape s))) = ROk j ->
                  (exists v', subst d s = ROk v' /\ resolve f d v' = ROk j) \/ has_templ s = false).
   { destruct (has_templ s); [|now right]. intros H0. left.
-    destruct (subst d s) as [v'| | | |]; try discriminate. now exists v'. }
+    destruct (subst d s) as [v'| | | |] eqn:Es; try discriminate H0. exists v'. split; [reflexivity|exact H0]. }
   assert (Hfin : (exists v', subst d s = ROk v' /\ resolve f d v' = ROk j) \/ has_templ s = false ->
                  (exists k v', s = [TRef k] /\ lookup k (JObj d) = Found v' /\ resolve f d v' = ROk j) \/
                  (exists p, s = [TPar p]) \/
@@ -493,6 +493,131 @@ Section Refs.
     now rewrite (unionr_transfer _ _ (IH) (refs s) l0 Hl).
   Qed.
 End Refs.
+
+From LV Require Import Proofs.TemplateFrame.
+
+(** ** Part B': a templated value that resolves, in a dictionary that uses no name of the range the
+    model reserves for Template parameters ([no_par]), has no parameter token, and strict key
+    inspection of it SUCCEEDS (every reference, transitively, is present and inspectable). *)
+Lemma no_par_lookup o p : no_par o = true -> forall v, lookup (par_key p) (JObj o) <> Found v.
+Proof.
+  intros H v. unfold par_key. cbn [lookup]. rewrite (no_par_dget o (par_base + p) H) by lia. discriminate.
+Qed.
+
+Lemma subst_tokens o : forall s v',
+  subst o s = ROk v' ->
+  exists r, v' = JStr r /\
+    (forall k, In k (refs s) -> exists v sv, lookup k (JObj o) = Found v /\ to_str v = Some sv /\ incl sv r) /\
+    (forall p, In p (pars s) -> exists v, lookup (par_key p) (JObj o) = Found v).
+Proof.
+  induction s as [|t s IH]; intros v' H.
+  - inversion H; subst. exists []. split; [reflexivity|]. split; intros ? [].
+  - assert (Hlit : forall t0, refs [t0] = [] -> pars [t0] = [] ->
+              match subst o s with ROk (JStr r) => ROk (JStr (t0 :: r)) | e => e end = ROk v' ->
+              exists r, v' = JStr r /\
+                (forall k, In k (refs (t0 :: s)) -> exists v sv, lookup k (JObj o) = Found v /\ to_str v = Some sv /\ incl sv r) /\
+                (forall p, In p (pars (t0 :: s)) -> exists v, lookup (par_key p) (JObj o) = Found v)).
+    { intros t0 Hr Hp H0. destruct (subst o s) as [w| | | |] eqn:Es; try discriminate.
+      destruct (IH w eq_refl) as [r [-> [Hk Hq]]]. inversion H0; subst. exists (t0 :: r). split; [reflexivity|]. split.
+      - intros k Hin. change (t0 :: s) with ([t0] ++ s) in Hin. rewrite refs_app, Hr in Hin.
+        destruct (Hk k Hin) as [v [sv [Hl [Ht Hi]]]]. exists v, sv. split; [exact Hl|]. split; [exact Ht|now apply incl_tl].
+      - intros p Hin. change (t0 :: s) with ([t0] ++ s) in Hin. unfold pars in Hin. rewrite flat_map_app in Hin.
+        fold (pars [t0]) in Hin. rewrite Hp in Hin. apply (Hq p Hin). }
+    assert (Hone : forall k0,
+              match lookup k0 (JObj o) with
+              | Found v => match to_str v with
+                           | Some sv => match subst o s with ROk (JStr r) => ROk (JStr (sv ++ r)) | e => e end
+                           | None => RUnmodelled end
+              | Absent => RMissing k0 | TypeErr => RTypeErr end = ROk v' ->
+              exists r, v' = JStr r /\
+                (exists v sv, lookup k0 (JObj o) = Found v /\ to_str v = Some sv /\ incl sv r) /\
+                (forall k, In k (refs s) -> exists v sv, lookup k (JObj o) = Found v /\ to_str v = Some sv /\ incl sv r) /\
+                (forall p, In p (pars s) -> exists v, lookup (par_key p) (JObj o) = Found v)).
+    { intros k0 H0. destruct (lookup k0 (JObj o)) as [v| |] eqn:El; try discriminate.
+      destruct (to_str v) as [sv|] eqn:Et; [|discriminate].
+      destruct (subst o s) as [w| | | |] eqn:Es; try discriminate.
+      destruct (IH w eq_refl) as [r [-> [Hk Hq]]]. inversion H0; subst. exists (sv ++ r). split; [reflexivity|]. split; [|split].
+      - exists v, sv. split; [reflexivity|]. split; [exact Et|apply incl_appl, incl_refl].
+      - intros k Hin. destruct (Hk k Hin) as [v1 [sv1 [Hl [Ht Hi]]]]. exists v1, sv1.
+        split; [exact Hl|]. split; [exact Ht|now apply incl_appr].
+      - exact Hq. }
+    destruct t as [c|k0|p| |]; cbn [subst] in H.
+    + apply (Hlit (TLit c)); [reflexivity|reflexivity|exact H].
+    + destruct (Hone k0 H) as [r [-> [H0 [Hk Hq]]]]. exists r. split; [reflexivity|]. split; [|exact Hq].
+      intros k [<-|Hin]; [exact H0|now apply Hk].
+    + destruct (Hone (par_key p) H) as [r [-> [[v [sv [Hl _]]] [Hk Hq]]]]. exists r. split; [reflexivity|]. split; [exact Hk|].
+      intros q [<-|Hin]; [now exists v|now apply Hq].
+    + apply (Hlit TEscL); [reflexivity|reflexivity|exact H].
+    + apply (Hlit TEscR); [reflexivity|reflexivity|exact H].
+Qed.
+
+Lemma has_par_pars s : has_par s = true -> exists p, In p (pars s) /\ In (TPar p) s.
+Proof.
+  unfold has_par, pars. induction s as [|t s IH]; [discriminate|]. cbn [existsb flat_map].
+  destruct t; cbn; try (intros H; destruct (IH H) as [q [H1 H2]]; exists q; split; [exact H1|now right]).
+  intros _. exists p. split; now left.
+Qed.
+Lemma has_par_incl s r : incl s r -> has_par s = true -> has_par r = true.
+Proof.
+  intros Hi H. destruct (has_par_pars s H) as [p [_ Hp]]. unfold has_par. apply existsb_exists. exists (TPar p). split; [now apply Hi|reflexivity].
+Qed.
+Lemma refs_incl s r : incl s r -> incl (refs s) (refs r).
+Proof.
+  intros Hi k Hk. unfold refs in *. apply in_flat_map in Hk as [t [Ht Hk]]. apply in_flat_map. exists t. split; [now apply Hi|exact Hk].
+Qed.
+
+Section NoPar.
+  Variable o : dict.
+  Hypothesis Hnp : no_par o = true.
+
+  Lemma resolved_no_par n s j : resolve n o (JStr s) = ROk j -> has_par s = false.
+  Proof.
+    intros H. destruct (has_par s) eqn:Hp; [|reflexivity]. exfalso.
+    destruct (has_par_pars s Hp) as [p [Hin Hin']]. destruct n as [|f]; [discriminate|].
+    destruct (resolve_str_cases f o s j H) as [[k0 [v' [-> _]]]|[[p' ->]|[[v' [Hs _]]|Ht]]].
+    - destruct Hin' as [E|[]]; discriminate E.
+    - rewrite resolve_str_unfold in H. destruct (lookup (par_key p') (JObj o)) as [v| |] eqn:El; try discriminate.
+      apply (no_par_lookup o p' Hnp v El).
+    - destruct (subst_tokens o s v' Hs) as [r [_ [_ Hq]]]. destruct (Hq p Hin) as [v Hv]. apply (no_par_lookup o p Hnp v Hv).
+    - unfold has_templ in Ht. assert (Hex : existsb is_templ s = true) by (apply existsb_exists; exists (TPar p); split; [exact Hin'|reflexivity]).
+      rewrite Hex in Ht. discriminate Ht.
+  Qed.
+
+  Theorem resolved_refs_inspectable n : forall s j,
+    resolve n o (JStr s) = ROk j -> forall k, In k (refs s) -> exists L, rs (ref_keys unit n true o k) = Ok L.
+  Proof.
+    induction n as [|f IH]; intros s j H k Hk; [discriminate|]. rewrite rs_ref_keys_S.
+    assert (Hall : forall s' j', resolve f o (JStr s') = ROk j' ->
+              exists L, (if has_par s' then Err CUnmodelled false
+                         else bindr (rs (unionM unit (fun k' => ref_keys unit f true o k') (refs s'))) (fun l => Ok (k :: l))) = Ok L).
+    { intros s' j' Hr. rewrite (resolved_no_par f s' j' Hr).
+      rewrite (rs_unionM_ext _ _ (fun k' => rs (ref_keys unit f true o k'))) by reflexivity.
+      destruct (unionr_all_ok (fun k' => rs (ref_keys unit f true o k')) (refs s')) as [L HL]; [|rewrite HL; now eexists].
+      intros k' Hk'. apply (IH s' j' Hr k' Hk'). }
+    destruct (resolve_str_cases f o s j H) as [[k0 [v' [-> [Hl Hr]]]]|[[p ->]|[[v' [Hs Hr]]|Hp]]].
+    - destruct Hk as [<-|[]]. rewrite Hl. destruct v'; try (now eexists). apply (Hall s j Hr).
+    - destruct Hk.
+    - destruct (subst_tokens o s v' Hs) as [r [-> [Hfound _]]]. destruct (Hfound k Hk) as [v [sv [Hl [Ht Hi]]]].
+      rewrite Hl. destruct v; try (now eexists). cbn in Ht. inversion Ht; subst sv.
+      assert (Hnpar : has_par s0 = false).
+      { destruct (has_par s0) eqn:E; [|reflexivity]. pose proof (has_par_incl s0 r Hi E) as E1.
+        pose proof (resolved_no_par f r j Hr) as E2. congruence. }
+      rewrite Hnpar. rewrite (rs_unionM_ext _ _ (fun k' => rs (ref_keys unit f true o k'))) by reflexivity.
+      destruct (unionr_all_ok (fun k' => rs (ref_keys unit f true o k')) (refs s0)) as [L HL]; [|rewrite HL; now eexists].
+      intros k' Hk'. apply (IH r j Hr k'). now apply (refs_incl s0 r Hi).
+    - exfalso. clear -Hk Hp. unfold has_templ in Hp. unfold refs in Hk. apply in_flat_map in Hk as [t [Ht Hk]].
+      assert (is_templ t = true) by (destruct t; try destruct Hk; reflexivity).
+      assert (existsb is_templ s = true) by (apply existsb_exists; now exists t). congruence.
+  Qed.
+
+  Lemma resolved_keys_ok rfuel s j : resolve rfuel o (JStr s) = ROk j ->
+    has_par s = false /\ exists L, refsr rfuel true o s = Ok L.
+  Proof.
+    intros H. split; [apply (resolved_no_par rfuel s j H)|]. unfold refsr.
+    rewrite (rs_unionM_ext _ _ (fun k' => rs (ref_keys unit rfuel true o k'))) by reflexivity.
+    apply unionr_all_ok. intros k Hk. apply (resolved_refs_inspectable rfuel s j H k Hk).
+  Qed.
+End NoPar.
 
 (** ** Part C: explain() covers keys().  Fragment [pC] (no bare lazy iterable, no Template, no
     Map), all dictionaries (templated values, pre-set dictionaries, scalar parents included), all
@@ -1736,27 +1861,14 @@ Proof. intros f args v _ H. unfold u_partial in H. destruct (existsb _ args); in
     total.  Fragment [pA]: function positions hold callables by syntax, an Option's domain is a
     constant and only on Options without default (finding D4), no effects (finding D9), no
     Template (D13), no pre-set dictionaries, no bare lazy Iter, no Map.  Dictionary: well-formed,
-    every value resolves, no templated string values (finding D1 and property C09 live there). *)
+    every value resolves (templated values included: finding D1 lives in the values that do not),
+    no option name of the range the model reserves for Template parameters ([no_par]). *)
 Definition pA : fopts :=
   {| f_coalesce := true; f_lazy := false; f_template := false; f_effects := false; f_dom := true;
      f_domdflt := false; f_presets := false; f_partialbind := true; f_alloptions := true;
      f_domexpr := false; f_untyped := false |}.
 
 Definition total_u (u : N -> list value -> cres) : Prop := forall f args, exists v, u f args = COk v.
-Definition untemplated (o : dict) : Prop :=
-  forall k s, lookup k (JObj o) = Found (JStr s) -> has_templ s = false.
-
-Lemma untempl_no_par s : has_templ s = false -> has_par s = false.
-Proof.
-  unfold has_templ, has_par. induction s as [|t s IH]; [reflexivity|]. cbn [existsb].
-  intros H. apply orb_false_elim in H as [Ht Hs]. rewrite (IH Hs), orb_false_r. destruct t; try reflexivity; discriminate.
-Qed.
-Lemma untempl_no_refs s : has_templ s = false -> refs s = [].
-Proof.
-  unfold has_templ, refs. induction s as [|t s IH]; [reflexivity|]. cbn [existsb flat_map].
-  intros H. apply orb_false_elim in H as [Ht Hs]. rewrite (IH Hs). destruct t; try reflexivity; discriminate.
-Qed.
-
 Lemma ufun_compose l post : (forall x, In x l -> ufun x = true) -> ufun (VF B_COMPOSE l post) = true.
 Proof.
   intros H. cbn [ufun]. rewrite N.eqb_refl. induction l as [|x l IH]; [reflexivity|].
@@ -1856,7 +1968,7 @@ Section Agree.
   Notation cleanQ := (cleanQ u rfuel).
   Notation vsc := (vsgood (fun _ => true)).
 
-  Definition SC (o : dict) : Prop := wf_dict o = true /\ resolves rfuel o /\ untemplated o.
+  Definition SC (o : dict) : Prop := wf_dict o = true /\ resolves rfuel o /\ no_par o = true.
   Definition AG (e : expr) (o : dict) : Prop :=
     okb (V e o) = okb (E e o) /\
     (fails (K e o) -> fails (E e o)) /\
@@ -1896,8 +2008,8 @@ Section Agree.
       assert (HK : exists L, match raw with
                              | JStr s => if has_par s then Err CUnmodelled false else bindr (refsr rfuel true o s) (fun l => Ok (k :: l))
                              | _ => Ok [k] end = Ok L).
-      { destruct raw; try (now eexists). pose proof (Hun k s El) as Hs. rewrite (untempl_no_par s Hs).
-        unfold refsr. rewrite (untempl_no_refs s Hs). now eexists. }
+      { destruct raw; try (now eexists). destruct (resolved_keys_ok o Hun rfuel s j Hj) as [Hp [L HL]].
+        rewrite Hp, HL. now eexists. }
       destruct HK as [L HL]. rewrite HL.
       assert (Hdc : dom_check u rfuel dom o (VJ j) = Ok (VJ j) \/ dom_check u rfuel dom o (VJ j) = Err CDomain false).
       { destruct dom as [de|]; [|now left]. destruct dflt; [destruct Hdom|]. destruct Hdom as [d [-> [Hc Hv]]].
@@ -2254,7 +2366,7 @@ End Agree.
 
 (** *** on the observed reference functions *)
 Theorem agree_nc u fuel e o :
-  total_u u -> clean_u u -> fragP pA e = true -> wf_dict o = true -> resolves fuel o -> untemplated o ->
+  total_u u -> clean_u u -> fragP pA e = true -> wf_dict o = true -> resolves fuel o -> no_par o = true ->
   okb (fst (validate_nc u fuel e o)) = okb (fst (eval_nc u fuel e o)) /\
   (okb (fst (keys_nc u fuel e o)) = false -> okb (fst (eval_nc u fuel e o)) = false) /\
   (forall c ee, fst (eval_nc u fuel e o) = Err c ee -> c <> CDomain -> okb (fst (keys_nc u fuel e o)) = false).
@@ -2272,7 +2384,7 @@ Qed.
 (** "bodies total and option values in their declared domains": validate, keys and evaluate
     succeed or fail together *)
 Theorem agree_total_nc u fuel e o :
-  total_u u -> clean_u u -> fragP pA e = true -> wf_dict o = true -> resolves fuel o -> untemplated o ->
+  total_u u -> clean_u u -> fragP pA e = true -> wf_dict o = true -> resolves fuel o -> no_par o = true ->
   (forall ee, fst (eval_nc u fuel e o) <> Err CDomain ee) ->
   okb (fst (validate_nc u fuel e o)) = okb (fst (eval_nc u fuel e o)) /\
   okb (fst (keys_nc u fuel e o)) = okb (fst (eval_nc u fuel e o)).
@@ -2284,14 +2396,6 @@ Proof.
 Qed.
 
 Lemma u_total_total : total_u u_total. Proof. intros f args. now eexists. Qed.
-Lemma untemplated_single a z : untemplated [(SName a, JInt z)].
-Proof.
-  intros k s H. destruct k as [|s0 k]; [discriminate H|]. cbn [lookup] in H. destruct s0 as [n|i]; [|discriminate]. cbn in H.
-  destruct (N.eqb n a); cbn in H; [|discriminate]. destruct k; cbn in H; discriminate H.
-Qed.
-Lemma untemplated_nil : untemplated [].
-Proof. intros k s H. destruct k as [|s0 k]; [discriminate H|]. cbn in H. destruct s0; discriminate H. Qed.
-
 (** D9: an effect's callback reads an option: keys succeeds, evaluate fails for the missing option *)
 Definition d9_expr : expr := EComp (body 100 [EOption kA None None]) [pstep 101 [EOption kP None None]].
 (** a dataset whose dispatch is itself a dataset body: validate runs the dispatch body (chooser
@@ -2308,3 +2412,41 @@ Lemma d1_listed_refuted :
   fst (explain_nc u_total 40 (EOption kA None None) d1_opts) = Ok [kA] /\
   fst (validate_nc u_total 40 (EOption kA None None) d1_opts) = Err (CKey kB) true /\ ~ In kB [kA].
 Proof. split; [reflexivity|]. split; [reflexivity|]. intros [H|[]]; discriminate H. Qed.
+
+(** without [no_par]: an option value that is a Template parameter token whose (reserved) name the
+    dictionary happens to define — key inspection answers "outside the modelled universe" while
+    evaluation succeeds (a model artefact; the harness never generates such names) *)
+Definition o_par : dict := [(SName 10, JStr [TPar 1]); (SName (par_base + 1), JInt 5)].
+Lemma no_par_needed :
+  no_par o_par = false /\
+  fst (keys_nc u_total 40 (EOption kA None None) o_par) = Err CUnmodelled false /\
+  fst (eval_nc u_total 40 (EOption kA None None) o_par) = Ok (VJ (JInt 5)).
+Proof. split; [reflexivity|]. split; reflexivity. Qed.
+
+(** a dictionary with a templated value: {'A': '{B}', 'B': 1} *)
+Definition o_T : dict := [(SName 10, JStr [TRef kB]); (SName 11, JInt 1)].
+Lemma resolves_o_T : resolves 40 o_T.
+Proof.
+  intros k raw H. destruct k as [|s k]; [inversion H; subst; eexists; reflexivity|].
+  cbn [lookup] in H. destruct s as [n|i]; [|discriminate]. cbn in H.
+  destruct (N.eqb n 10); cbn in H.
+  - destruct k as [|s' k']; cbn in H; [inversion H; subst; eexists; reflexivity|discriminate].
+  - destruct (N.eqb n 11); cbn in H; [|discriminate].
+    destruct k as [|s' k']; cbn in H; [inversion H; subst; eexists; reflexivity|discriminate].
+Qed.
+
+(** pre-set dictionaries: WithOptions(Option('S.X'), {'S': {'X': 1}}, force=False) on {'S': []}.
+    The caller's list S replaces the default section, Option('S.X') is absent from the overlaid
+    dictionary and validate fails naming S.X.  Before fix 6884003 explain's filter dropped S.X
+    ("fully determined by the pre-set options": present there, absent from the caller's
+    dictionary) and listed nothing; now a key is determined by the pre-set options only if it is
+    still present in the mixed options, and explain lists S.X, which is absent. *)
+Definition kSX : key := [SName 20; SName 21].
+Definition preset_expr : expr := EWith false [(SName 20, JObj [(SName 21, JInt 1)])] (EOption kSX None None).
+Definition preset_opts : dict := [(SName 20, JList [])].
+Lemma presets_overlaid_away_listed :
+  wf_dict preset_opts = true /\
+  fst (validate_nc u_total 40 preset_expr preset_opts) = Err (CKey kSX) true /\
+  fst (explain_nc u_total 40 preset_expr preset_opts) = Ok [kSX] /\
+  lookup kSX (JObj preset_opts) = Absent.
+Proof. split; [reflexivity|]. split; [reflexivity|]. split; reflexivity. Qed.
